@@ -15,12 +15,43 @@ pub struct Big {
     slots: RefCell<Vec<Rc<Big>>>,
 }
 
+/// C16 on big groups: from destructor number DEAD_AT on, every destructor clones (1) or
+/// drops (2) the handles its value stores; they all name members of the dying group.
+pub static DEAD_ACT: AtomicUsize = AtomicUsize::new(0);
+pub static DEAD_AT: AtomicUsize = AtomicUsize::new(0);
+static ORD: AtomicUsize = AtomicUsize::new(0);
+
 impl Drop for Big {
     fn drop(&mut self) {
         if self.seen[self.id].swap(1, Relaxed) != 0 {
             DOUBLE.fetch_add(1, Relaxed);
         }
         DESTROYED.fetch_add(1, Relaxed);
+        let act = DEAD_ACT.load(Relaxed);
+        if act != 0 {
+            let ord = ORD.fetch_add(1, Relaxed);
+            if ord >= DEAD_AT.load(Relaxed) {
+                let mut slots = std::mem::take(&mut *self.slots.borrow_mut());
+                if act == 1 {
+                    for h in slots.iter() {
+                        let c = Rc::clone(h);
+                        // the specified result is a process abort inside the call
+                        let line = format!("{{\"type\":\"dead-clone-returned\",\"ord\":{ord},\"id\":{},\"target\":{},\"strong\":{}}}\n", self.id, c.id, Rc::strong_count(&c));
+                        unsafe {
+                            extern "C" {
+                                fn write(fd: i32, buf: *const u8, n: usize) -> isize;
+                            }
+                            write(1, line.as_ptr(), line.len());
+                        }
+                        unsafe { crate::alloc::_exit(42) };
+                    }
+                } else {
+                    while let Some(h) = slots.pop() {
+                        drop(h);
+                    }
+                }
+            }
+        }
     }
 }
 
@@ -229,4 +260,84 @@ pub fn run(shape: &str, n: usize, chords: usize, selfsame_every: usize, seed: u6
     }
     drop(weaks);
     ScaleOut { n, edges, destroyed: DESTROYED.load(Relaxed), double: DOUBLE.load(Relaxed), trace_calls: c[0], pops: c[1], visits: c[2], scanned: c[3], build_us, drop_us, count_errors }
+}
+
+/// Long-lived objects across very many traces. Witness rings are traced once (which
+/// leaves whatever per-object state a trace leaves), then stay untouched while a filler
+/// object is traced again and again; the last outside handle of each witness is released
+/// exactly when the number of traces since its own reaches 2^pow + off for the powers up to
+/// `max_pow` and off in -3..=3 - the distances at which a narrow per-trace counter or stamp
+/// would collide. Each release must destroy the witness ring in full.
+pub struct SoakOut {
+    pub traces: u64,
+    pub witnesses: usize,
+    pub failures: Vec<(u32, i64, &'static str)>,
+    pub wall_ms: u128,
+}
+
+pub fn soak(max_pow: u32) -> SoakOut {
+    let t0 = std::time::Instant::now();
+    let pows: Vec<u32> = [8u32, 16, 24, 32].into_iter().filter(|p| *p <= max_pow).collect();
+    let nw = pows.len() * 7;
+    let seen: &'static [std::sync::atomic::AtomicU8] = Box::leak((0..2 * nw + 1).map(|_| std::sync::atomic::AtomicU8::new(0)).collect::<Vec<_>>().into_boxed_slice());
+    let mk = |id: usize| Rc::new(Big { id, seen, slots: RefCell::new(Vec::new()) });
+    // filler: a self-adopting object; clone + drop of a handle to it is one trace
+    let f = mk(2 * nw);
+    let fc = Rc::clone(&f);
+    link(&f, fc, false);
+    verif::reset();
+    let traces = || verif::counters()[0] as u64;
+    struct W {
+        pow: u32,
+        off: i64,
+        b: Option<Rc<Big>>,
+        wa: cactusref::Weak<Big>,
+        wb: cactusref::Weak<Big>,
+        ids: (usize, usize),
+        due: u64,
+    }
+    let mut ws: Vec<W> = vec![];
+    let mut k = 0usize;
+    for &pow in &pows {
+        for off in -3i64..=3 {
+            let a = mk(2 * k);
+            let b = mk(2 * k + 1);
+            link(&a, Rc::clone(&b), false);
+            link(&b, Rc::clone(&a), false);
+            let (wa, wb) = (Rc::downgrade(&a), Rc::downgrade(&b));
+            let at = traces();
+            drop(a); // this witness's own trace: index `at`, visits both members, b is held outside
+            debug_assert_eq!(traces(), at + 1);
+            // keep releases two traces apart so that a filler trace separates them
+            ws.push(W { pow, off, b: Some(b), wa, wb, ids: (2 * k, 2 * k + 1), due: ((at as i64) + (1i64 << pow) + off) as u64 + 0 });
+            k += 1;
+        }
+    }
+    ws.sort_by_key(|w| w.due);
+    let mut failures = vec![];
+    for w in ws.iter_mut() {
+        // fill up to the due index; the release itself is the trace with that index
+        let mut now = traces();
+        while now < w.due {
+            let burst = (w.due - now).min(1 << 16);
+            for _ in 0..burst {
+                drop(Rc::clone(&f));
+            }
+            now = traces();
+        }
+        if now != w.due {
+            // two witnesses due at the same index: release this one late (still counted)
+        }
+        let before = (seen[w.ids.0].load(Relaxed), seen[w.ids.1].load(Relaxed));
+        drop(w.b.take());
+        let after = (seen[w.ids.0].load(Relaxed), seen[w.ids.1].load(Relaxed));
+        if before != (0, 0) {
+            failures.push((w.pow, w.off, "witness destroyed before its last outside handle was released"));
+        } else if after != (1, 1) || w.wa.upgrade().is_some() || w.wb.upgrade().is_some() {
+            failures.push((w.pow, w.off, "witness ring not destroyed by the release of its last outside handle"));
+        }
+    }
+    let total = traces();
+    drop(f);
+    SoakOut { traces: total, witnesses: nw, failures, wall_ms: t0.elapsed().as_millis() }
 }
